@@ -257,7 +257,15 @@ pub fn c17_worker(ctx: &mut Ctx) {
         (_, Tier::Thorough) => 11,
     };
     ctx.begin("exhaustive", k as u64, "");
-    match exhaustive(k, ctx.shard, ctx.nshards, true) {
+    let (shard, nshards) = (ctx.shard, ctx.nshards);
+    let ex = match crate::iface::caught(move || exhaustive(k, shard, nshards, true)) {
+        Ok(r) => r,
+        Err(f) => {
+            disarm_splay();
+            Err(format!("{:?}", f))
+        }
+    };
+    match ex {
         Ok(x) => {
             ctx.evaluations += x.transitions + x.terminal_runs;
             ctx.cnt("exhaustive_transitions_checked", x.transitions);
@@ -295,7 +303,20 @@ pub fn c17_worker(ctx: &mut Ctx) {
         ctx.begin("history", i, &format!("{} {}", steps, universe));
         ctx.evaluations += 1;
         let label = format!("{}/history", ctx.prop);
-        if let Err((m, log)) = c17_history(ctx.seed, &label, i, steps, universe, &mut st) {
+        let seed = ctx.seed;
+        let hist = {
+            let (label, st) = (&label, &mut st);
+            crate::iface::caught(std::panic::AssertUnwindSafe(move || c17_history(seed, label, i, steps, universe, st)))
+        };
+        let hist = match hist {
+            Ok(r) => r,
+            Err(f) => {
+                // a panic inside the tree (incl. the step budget of its loops: a loop that no longer terminates)
+                disarm_splay();
+                Err((format!("the tree did not complete the history: {:?}", f), vec![]))
+            }
+        };
+        if let Err((m, log)) = hist {
             ctx.violation("splay:history", &format!("{} (history prefix: {})", m, log.join(" ")), json!({"kind": "splay-history", "property": "C17", "seed": ctx.seed, "label": label, "index": i, "steps": steps, "universe": universe}));
         }
         ctx.note_nontrivial(crate::util::fnv64(format!("h{}-{}-{}-{}", ctx.seed, i, steps, universe).as_bytes()));
